@@ -181,3 +181,31 @@ func VH_C18_orphan_buffer() {
 	cancel()
 	verifrt.Reach("C18/orphan-buffer")
 }
+
+// VH_C18_truncate_vs_retry: a truncation (and the proposals around it) while the orphan buffer is not
+// empty and its retry ticker pops and replays parked vertices.
+func VH_C18_truncate_vs_retry() {
+	l := vhWalkLedger(3)
+	l.vhSetDepth(1)
+	vhRaceMode()
+	ctx, cancel := context.WithCancel(context.Background())
+	b, err := newReplierBuffer(ctx, time.Millisecond)
+	if err != nil {
+		panic(err)
+	}
+	l.ab.repeater = b
+	go l.ab.runLeafSubscriber(ctx)
+	for r := 0; r < 2*vhRounds(); r++ {
+		for j := 0; j < 2; j++ {
+			in := vhTransfer(400+2*r+j, "A", "C", spice.New(0, 1), nil, vhPeerAddr, 60)
+			in.LeftParentHash[0], in.RightParentHash[0] = 0x98, 0x98 // unknown parents: parked
+			l.ab.AddLeaf(ctx, in)
+		}
+		verifrt.Tick() // the ticker fires ...
+		l.ab.truncate(ctx) // ... while a truncation runs
+		l.ab.CreateLeaf(ctx, vhTrxN(l, 10+r, "B", "C"))
+		verifrt.Quiesce()
+	}
+	cancel()
+	verifrt.Reach("C18/truncate-vs-retry")
+}
